@@ -175,6 +175,11 @@ func main() {
 			for i, o := range dmgBases {
 				emit(codec.RunDamage(o.ID+"/dmg", &dmgTmpl[i].M, o.Wire.Bytes(), *fullDamage))
 			}
+			for i, o := range dmgBases {
+				if i%4 == 0 {
+					emit(codec.RunDamageConcurrent(o.ID+"/dmg-concurrent", &dmgTmpl[i].M, o.Wire.Bytes(), 1500))
+				}
+			}
 		}
 		if has("reuse") {
 			for i := 0; i < *n; i++ {
